@@ -640,9 +640,15 @@ def execute(plan):
                 # state left behind by earlier calls of this run cannot reach it)
                 from sim import pristine
                 pristine_left[0] -= 1
+                # the estimator of the reference is built from the *very same* registered values
+                # (bit for bit: a gamut's vertex cloud is highly degenerate, and a 1-ulp change
+                # of K re-triangulates it, which moves every sample)
+                sys_now = sysd if est is None else dict(
+                    sysd, K=np.array(est.K, copy=True), baseline=np.array(est.baseline, copy=True),
+                    lb=np.array(est.lb, copy=True), ub=np.array(est.ub, copy=True))
                 ref = pristine.client().call("checks.c13", "pristine_sample",
                                              None if c["t"] == "est" else ref_clouds[c["t"]],
-                                             sysd, {k_: v_ for k_, v_ in c.items()}, dim)
+                                             sys_now, {k_: v_ for k_, v_ in c.items()}, dim)
                 bump("pristine_process_references")
                 if ref.shape != Sm.shape or not np.allclose(ref, Sm, rtol=1e-10, atol=1e-12 * (
                         1.0 + float(np.max(np.abs(Sm))))):
